@@ -361,6 +361,65 @@ func c01Cross(chk *fw.Check) int {
 			n++
 			w.Cleanup()
 		})
+		// (5) a list in force stays in force when a later refresh obtains something which is not accepted
+		bad := world.SimpleCRL(p.CA, 2, 631)
+		bad.BadSig = true
+		for _, kind := range []struct {
+			name string
+			b    *world.Behaviour
+		}{
+			{"error-page", &world.Behaviour{Label: "404", Status: 404, Body: []byte("<html><body>404 not found</body></html>")}},
+			{"garbage", &world.Behaviour{Label: "garbage", Body: []byte{0x30, 0x82, 0xff, 0xff, 1, 2, 3}}},
+			{"bad-signature", &world.Behaviour{Label: "badsig", Body: bad.DER()}},
+		} {
+			for _, source := range []string{"cdp", "crl_urls"} {
+				kind, source := kind, source
+				seqWorld(func() {
+					net := world.NewNet()
+					dir, files := FreshDir("c01v"), FreshDir("c01vf")
+					defer os.RemoveAll(dir)
+					defer os.RemoveAll(files)
+					net.Serve(c01CRLURL, "v1", world.SimpleCRL(p.CA, 1, 631).DER())
+					storage := "memory"
+					if disk {
+						storage = "disk"
+					}
+					cfg := &config.CRLConfig{WorkDir: dir, StorageType: storage, UpdateInterval: "10m", TrustedSignatureCertsFiles: []string{WritePEM(files, "ca.pem", p.CA.Cert)}}
+					lo := world.CertOpt{CN: "c01 v", Serial: big.NewInt(631), KeyKind: "ec", KeyIdx: 5}
+					if source == "cdp" {
+						lo.CDP = []string{c01CRLURL}
+					} else {
+						cfg.CRLUrls = []string{c01CRLURL}
+					}
+					w := NewTW(TWOpt{Mode: "crl_only", Net: net, CRL: cfg})
+					if err := w.Provision(); err != nil {
+						chk.Violation("C01|premise|provision-failed", "rejected-refresh case: "+err.Error(), nil)
+						return
+					}
+					vsched.Drain()
+					l := world.Issue(p.CA, lo)
+					sig := "C01|listed-accepted|history=accepted-list-then-rejected-refresh(" + kind.name + ")|source=" + source + "|" + be(disk)
+					if v := w.Handshake(world.Chain(l, p.CA, p.Root)); !v.Rejected() {
+						chk.Violation("C01|premise|first-load", "listed certificate accepted right after the first load: "+v.String(), nil)
+						return
+					}
+					vsched.Drain()
+					net.Routes[c01CRLURL] = kind.b
+					before := net.HitsFor(c01CRLURL)
+					vsched.Advance(11 * time.Minute)
+					vsched.Drain()
+					if net.HitsFor(c01CRLURL) == before {
+						chk.Violation("C01|premise|no-refresh", "the update interval passed but the origin was not asked again", nil)
+						return
+					}
+					if v := w.Handshake(world.Chain(l, p.CA, p.Root)); !v.Rejected() {
+						chk.Violation(sig, fmt.Sprintf("a certificate listed in the accepted CRL was accepted after a refresh obtained %s (which is not accepted): %s", kind.name, v), nil)
+					}
+					n++
+					w.Cleanup()
+				})
+			}
+		}
 	}
 	return n
 }
